@@ -14,8 +14,8 @@ Definition usm_gen_bound (offset_size ip it : Z) : Z := offset_size.
 Definition usm_gen_offset_index (i : Z) : Z := i.
 (* poffs and std::modf *)
 Definition usm_poffs (kd : Z) (o : Qc) : Qc := (f32add (i2f32 (kd / 2)) o).
-Definition usm_qpint (kd : Z) (o : Qc) : Qc := modf_int (usm_poffs kd o).
-Definition usm_xip (kd : Z) (o : Qc) : Qc := modf_frac (usm_poffs kd o).
+Definition usm_qpint (kd : Z) (o : Qc) : Qc := (modf_int (usm_poffs kd o)).
+Definition usm_xip (kd : Z) (o : Qc) : Qc := (modf_frac (usm_poffs kd o)).
 (* the guard; the float -> unsigned conversion and whether it is executed under the guard only *)
 Definition usm_jd (kd : Z) (q : Qc) : Z := fcvt_val 32 q.
 Definition usm_jd_defined (kd : Z) (q : Qc) : bool := fcvt_ok 32 q.
